@@ -19,6 +19,9 @@
         s<data> stream, separate buffers   S<data> stream in place   B<nonce>:<data> crypto_aesctr_buf
         J<pos>  WHITE-BOX, not a library call: stream->bytectr = pos (hex, multiple of 16), only
                 right after I/N/R; the object then is a stream positioned at block pos/16
+     big <key> <nonce> <len1> <len2> <tail1>   one call of len1 zero bytes then one of len2 zero bytes
+        on one stream; only "spec big" is answered (ctr_spec_from evaluated directly at the block
+        indices of the two reported ranges); the model proper is not run over gigabytes
    prefix "spec": FIPS-197 Cipher and ctr_spec on the concatenated data of each (key, nonce) epoch;
    prefix "slow": like spec for block lines, with the S-box computed as inverse + affine map. *)
 let mode = if Array.length Sys.argv > 1 then Sys.argv.(1) else "aesni"
@@ -164,6 +167,12 @@ let run_wipe_ctr toks =
   List.iter (fun k -> ev := List.rev_append (key_free k) !ev) (List.rev !keys);
   List.rev !ev
 
+(* keystream XOR zeros = the bytes the spec puts at stream positions pos .. pos+len-1 *)
+let spec_range e nonce pos len =
+  let b0 = pos / 16 and off = pos mod 16 in
+  let out = x_ctr_spec_from e nonce (n_of_int b0) (List.init (off + len) (fun _ -> N0)) in
+  snd (split_at off out)
+
 let show outs = "ok" ^ String.concat "" (List.map (fun o -> " " ^ hex_of_bytes o) outs)
 
 let () = iter_lines (fun line ->
@@ -182,6 +191,11 @@ let () = iter_lines (fun line ->
       | "slow" :: ("block" | "blockni") :: key :: blks -> let k = bytes_of_hex key in show (List.map (fun b -> x_aes_encrypt_slow k (bytes_of_hex b)) blks)
       | "ctr" :: toks -> show (run_model toks)
       | "spec" :: "ctr" :: toks -> show (run_spec toks)
+      | ["spec"; "big"; key; nonce; len1; len2; tail1] ->
+        let e = spec_e (bytes_of_hex key) and nonce = nonce_of nonce in
+        let len1 = int_of_string len1 and len2 = int_of_string len2 and tail1 = int_of_string tail1 in
+        show [spec_range e nonce (len1 - tail1) tail1; spec_range e nonce len1 len2]
+      | "big" :: _ -> "model-not-run"
       | ["selftest"] -> show [selftest1_key; selftest1_ptext; selftest1_ctext; selftest2_key; selftest2_ptext; selftest2_ctext]
       | _ -> "bad-case"
     with Failure m -> "model-" ^ m in
